@@ -3,9 +3,10 @@
    the slot of the start and in the slot before the end, and every booking of the task lies in
    [start, end).  Sub-slot placement inside a slot is covered at cell level (C01/C03) and on the
    implementation by the oracle of harness/oracles.py. *)
-From Coq Require Import List Arith.
+From Coq Require Import List Arith ZArith.
 Require Import SP.Model.Sched SP.Proofs.SchedWalk SP.Proofs.SchedFinal.
 Require Import SP.Model.Alap SP.Proofs.AlapProofs.
+Require Import SP.Model.Ledger SP.Model.SubSlot SP.Proofs.SubSlotProofs.
 
 Theorem C06_frame : forall p t f e, leaf_dates (schedule p) t = Some (f, e) ->
   (t_need (task_of p t) = 0 -> f = e) /\
@@ -28,3 +29,13 @@ Theorem C06_alap : forall p t f e, alap_leaf_dates p t = Some (f, e) ->
      (forall x, In x (alap_bookings p) -> b_task x = t -> f <= b_slot x < e)).
 Proof. exact alap_frame. Qed.
 Print Assumptions C06_alap.
+
+(* ---- second granularity (Model/SubSlot.v: arbitrary efforts, efficiencies and gaps, tasks that begin and end
+   inside slots and share them; one resource per task, no limits), for every well-formed project
+   (wf: slot length > 0, efficiencies > 0, a task with work has a positive effort) *)
+(* with C03_subslot (every booked slot s satisfies s*G <= end and start < (s+1)*G) this is the frame at second
+   granularity; a milestone has start = end *)
+Theorem C06_subslot : forall p, wf p -> forall t f e, sleaf_dates (sschedule p) t = Some (f, e) ->
+  (f <= e)%Z /\ (s_mile (stask_of p t) = true -> f = e).
+Proof. exact subslot_frame. Qed.
+Print Assumptions C06_subslot.
